@@ -138,5 +138,21 @@ static void blk_lookalike(void) {
 		/* a message for ONE member only must not be opened by the look-alike */
 		ml = 0; venv_reset(9300 + c); r = cms_envelop(MSG, &ml, cert[a], cl[a], OID_sm4_cbc, SK, 16, IV, 16, OID_cms_data, CONTENT, 33, NULL, 0, NULL, 0); if (r == 1) { int ct; size_t ol = 0; const uint8_t *ri, *s1, *s2; size_t ril, s1l, s2l; r = cms_deenvelop(MSG, ml, &CK[4 + b], cert[b], cl[b], &ct, OUT, &ol, &ri, &ril, &s1, &s1l, &s2, &s2l); vh_eval(vh_mix(9400 + c * 2 + order)); if (r == 1) { snprintf(key, sizeof key, "C16:envelop-lookalike:%s:non-recipient-opens", LK[c].name); vh_viol(key, "\"order\":%d", order); } } }
 }
-static void body(void) { blk_sign(); blk_envelop(); blk_lookalike(); blk_encrypt(); blk_sign_envelop(); }
+/* signer sets that are easy to confuse: one CA numbering its certificates so that one serial is a byte prefix of another, the same serial under
+   two issuers; in both orders. The message must verify and hand back the content; flipping a content bit must still be refused. */
+static void blk_lookalike_signers(void) {
+	if (!vh_block_begin("sign-lookalike-signers")) return;
+	static const struct { const char *i1, *i2; uint8_t s1[4]; size_t l1; uint8_t s2[4]; size_t l2; const char *name; } LK[] = {
+		{ "CA", "CA", { 1, 0 }, 2, { 1 }, 1, "same-issuer-serial-0100-and-01" }, { "CA", "CA", { 1, 2, 3 }, 3, { 1, 2 }, 2, "same-issuer-serial-010203-and-0102" }, { "CA", "CA", { 1, 2, 3 }, 3, { 1, 2, 4 }, 3, "same-issuer-serials-differ-in-last-octet" },
+		{ "Issuing CA 1", "Issuing CA 2", { 5 }, 1, { 5 }, 1, "same-serial-issuers-differ-in-last-char" }, { "CA", "CA", { 0x7f }, 1, { 0x7f, 0x01 }, 2, "same-issuer-serial-7f-and-7f01" } };
+	for (int c = 0; c < 5; c++) for (int order = 0; order < 2; order++) { if (!vh_next()) continue; uint8_t cert[2][1024]; size_t cl[2] = { 0, 0 }; cert_spec sp; spec_leaf(&sp, "g0", X509_KU_DIGITAL_SIGNATURE); memcpy(sp.serial, LK[c].s1, LK[c].l1); sp.serial_len = LK[c].l1; if (make_cert(&sp, &CK[0], &CK[8], LK[c].i1, cert[0], &cl[0]) != 1) vh_harness_error("cert");
+		spec_leaf(&sp, "g1", X509_KU_DIGITAL_SIGNATURE); memcpy(sp.serial, LK[c].s2, LK[c].l2); sp.serial_len = LK[c].l2; if (make_cert(&sp, &CK[1], &CK[8], LK[c].i2, cert[1], &cl[1]) != 1) vh_harness_error("cert");
+		int a = order, b = 1 - order; CMS_CERTS_AND_KEY sg[2] = { { cert[a], cl[a], &CK[a] }, { cert[b], cl[b], &CK[b] } }; size_t ml = 0; venv_reset(9500 + c * 2 + order); char key[200]; int r = cms_sign(MSG, &ml, sg, 2, OID_cms_data, CONTENT, 33, NULL, 0); vh_eval(vh_mix(9500 + c * 2 + order));
+		if (r != 1) { snprintf(key, sizeof key, "C16:sign-lookalike:%s:refused", LK[c].name); vh_viol(key, "\"order\":%d", order); continue; }
+		int ct; const uint8_t *cc, *certs, *crls, *sis; size_t ccl, certl, crll, sil; r = cms_verify(MSG, ml, NULL, 0, NULL, 0, &ct, &cc, &ccl, &certs, &certl, &crls, &crll, &sis, &sil); vh_eval(vh_mix(9600 + c * 2 + order));
+		if (r != 1 || !content_matches(ct, cc, ccl, CONTENT, 33)) { snprintf(key, sizeof key, "C16:sign-lookalike:%s:own-message-does-not-verify", LK[c].name); vh_viol(key, "\"order\":%d,\"ret\":%d", order, r); continue; }
+		/* one signer's signature replaced by the other's must not verify: swap the two sign keys */
+		CMS_CERTS_AND_KEY sw[2] = { { cert[a], cl[a], &CK[b] }, { cert[b], cl[b], &CK[a] } }; ml = 0; venv_reset(9700 + c * 2 + order); if (cms_sign(MSG, &ml, sw, 2, OID_cms_data, CONTENT, 33, NULL, 0) == 1) { r = cms_verify(MSG, ml, NULL, 0, NULL, 0, &ct, &cc, &ccl, &certs, &certl, &crls, &crll, &sis, &sil); vh_eval(vh_mix(9800 + c * 2 + order)); if (r == 1) { snprintf(key, sizeof key, "C16:sign-lookalike:%s:signatures-by-each-others-keys-verify", LK[c].name); vh_viol(key, "\"order\":%d", order); } } }
+}
+static void body(void) { blk_sign(); blk_lookalike_signers(); blk_envelop(); blk_lookalike(); blk_encrypt(); blk_sign_envelop(); }
 int main(int argc, char **argv) { vh_init(argc, argv); if (!freopen("/dev/null", "w", stderr)) {} setup(); vh_guarded("C16", body, 120); return vh_finish(); }
